@@ -12,7 +12,8 @@ EXTENDS TraceLib, StarkField, FiniteSets
 
 VARIABLES ready,    \* sequence (bag) of <<heap index, value, depth>> not yet consumed
           authseq, used, root, nvf, phase, lastok, nchecked
-vars == <<l, ready, authseq, used, root, nvf, phase, lastok, nchecked>>
+vvars == <<ready, authseq, used, root, nvf, phase, lastok, nchecked>>
+vars == <<l, vvars>>
 
 Init == /\ l = 1 /\ ready = <<>> /\ authseq = <<>> /\ used = 0 /\ root = "none" /\ nvf = "0x0"
         /\ phase = "idle" /\ lastok = "none" /\ nchecked = 0
